@@ -16,7 +16,7 @@ TITLE = "Bit length set algebra is exact for every composition and every divisor
 RULE = (
     "Cases are operator trees over leaf/concatenate/unite/repeat/repeat_range/pad_to_alignment (recursive strategy, <=8 leaves, "
     "counts 0..6 or huge up to 2**64, alignments 1..64) with a drawn list of queries (min, max, fixed_length, %d, is_aligned_at(d), "
-    "is_aligned_at_byte, iter, len; d in 1..128 and a few huge), built through drawn API spellings (methods, + | with ints / sets, "
+    "is_aligned_at_byte, iter, len; d in 1..128 and a few huge), built through drawn API spellings (methods, + | += |= with ints / sets, "
     "radd/ror); plus rule-based histories over a pool of sets.  Oracles: explicit Python-set model (small) and sumset-power model in "
     "Z_d (any k).  Non-trivial = tree depth >= 2 with >= 2 distinct operator kinds, or a repetition count >= 2**32; distinct by SHA-1 "
     "of the case."
@@ -91,9 +91,23 @@ def build(tree: typing.Any, spell: _Lcg, registry: typing.List[typing.Tuple[typi
                 acc = raw(first)  # exercised through __radd__ / __ror__
             else:
                 acc = build(first, spell, registry)
+            acc_tree: typing.Any = first
             for c, ok in zip(rest, raw_ok[1:]):
                 rhs = raw(c) if ok and isinstance(acc, BitLengthSet) and spell.next(2) else build(c, spell, registry)
-                acc = (acc + rhs) if kind == "cat" else (acc | rhs)
+                if isinstance(acc, BitLengthSet) and spell.next(3) == 1:
+                    # augmented assignment on a second reference: the object the first reference still names must not change
+                    # (it is in the registry with its own subtree and is re-checked at the end)
+                    alias = acc
+                    if kind == "cat":
+                        alias += rhs
+                    else:
+                        alias |= rhs
+                    acc = alias
+                else:
+                    acc = (acc + rhs) if kind == "cat" else (acc | rhs)
+                acc_tree = (kind, (acc_tree, c))
+                if isinstance(acc, BitLengthSet):
+                    registry.append((acc, acc_tree))  # every partial result of the fold stays what it was
             b = acc
         for cs in caller_sets:
             cs.add(max(cs) + 1000)
@@ -307,6 +321,30 @@ def apply_step(state: typing.Dict[str, typing.Any], step: typing.Any, counters: 
             b, _ = guarded(lambda: (lhs[0] + raw) if op == "add" else (lhs[0] | raw), what=op)
             t = (kind, (lhs[1], t_r))
         pool.append((b, t))
+    elif op in ("iadd", "ior"):
+        lhs = pick(step[1])
+        rhs_raw = step[2]
+        if isinstance(rhs_raw, dict):
+            other = pick(rhs_raw["pool"])
+            rhs_obj, t_r = other[0], other[1]
+        else:
+            t_r = ref.freeze(["leaf", rhs_raw if isinstance(rhs_raw, list) else [rhs_raw]])
+            rhs_obj = set(rhs_raw) if isinstance(rhs_raw, list) else rhs_raw
+        target = lhs[0]  # a second reference to the pool member; the member itself must stay what it was
+
+        def run() -> typing.Any:
+            x = target
+            if op == "iadd":
+                x += rhs_obj
+            else:
+                x |= rhs_obj
+            return x
+
+        b, _ = guarded(run, what=op)
+        pool.append((b, ("cat" if op == "iadd" else "uni", (lhs[1], t_r))))
+        run_query(lhs[0], Oracle(lhs[1], counters), ["min"], counters, tag=":operand-after-augmented-assignment")
+        run_query(lhs[0], Oracle(lhs[1], counters), ["max"], counters, tag=":operand-after-augmented-assignment")
+        run_query(lhs[0], Oracle(lhs[1], counters), ["mod", 8], counters, tag=":operand-after-augmented-assignment")
     elif op in ("rep", "rng", "pad"):
         src = pick(step[1])
         n = step[2]
@@ -373,6 +411,15 @@ def machine_factory(ctx: Ctx, hooks: typing.Any) -> typing.Any:
         )
         def binary(self, op: str, i: int, raw: typing.Any, reflected: bool) -> None:
             self.step([op, i, raw, reflected])
+
+        @precondition(lambda self: self.state["pool"])
+        @rule(
+            op=st.sampled_from(["iadd", "ior"]),
+            i=st.integers(0, 63),
+            rhs=st.one_of(gen.elements(), st.lists(gen.elements(), min_size=1, max_size=3, unique=True).map(sorted), st.integers(0, 63).map(lambda j: {"pool": j})),
+        )
+        def augmented(self, op: str, i: int, rhs: typing.Any) -> None:
+            self.step([op, i, rhs])
 
         @precondition(lambda self: self.state["pool"])
         @rule(op=st.sampled_from(["rep", "rng"]), i=st.integers(0, 63), k=st.one_of(gen.small_count(), gen.huge_count()))
